@@ -621,6 +621,7 @@ func (E *Engine) loopEnter(st *State, li *loopInfo, from *ssa.BasicBlock) bool {
 	}
 	st.headEnv[li.Ordinal] = he
 	st.headHeap[li.Ordinal] = copyHeap(st.heap)
+	st.ghost[fmt.Sprintf("headalloc:%d", li.Ordinal)] = st.alloc
 	if c.coveredLoopN == nil {
 		c.coveredLoopN = map[int]int{}
 	}
@@ -1240,6 +1241,34 @@ func foldBool(s string) string {
 			return "true"
 		}
 		return ""
+	}
+	for _, op := range []string{"<=", ">=", "<", ">"} {
+		if strings.HasPrefix(s, "("+op+" ") && strings.HasSuffix(s, ")") {
+			fs := strings.Fields(s[len(op)+2 : len(s)-1])
+			if len(fs) == 2 && isIntLit(fs[0]) && isIntLit(fs[1]) {
+				a, _ := new(big.Int).SetString(fs[0], 10)
+				b, _ := new(big.Int).SetString(fs[1], 10)
+				if a != nil && b != nil {
+					c := a.Cmp(b)
+					r := false
+					switch op {
+					case "<=":
+						r = c <= 0
+					case ">=":
+						r = c >= 0
+					case "<":
+						r = c < 0
+					case ">":
+						r = c > 0
+					}
+					if r {
+						return "true"
+					}
+					return "false"
+				}
+			}
+			return ""
+		}
 	}
 	if strings.HasPrefix(s, "(= ") && strings.HasSuffix(s, ")") {
 		fs := strings.Fields(s[3 : len(s)-1])
